@@ -51,6 +51,9 @@ func genC03(c *Ctx) {
 			ks[i] = c.randScalar()
 			sk := skFromInt(ks[i])
 			pks[i] = sk.PublicKey()
+			if n <= 40 && c.intn(3) == 0 { // the same key in an object of other provenance (decoded, left by a removal, aggregated)
+				pks[i] = pkOfProvenance(c, ks[i], 1+c.intn(4))
+			}
 			sigs[i], _ = sk.Sign(msg, h)
 		}
 		modelK := append([]*big.Int{}, ks...)
